@@ -20,11 +20,12 @@ type Config struct {
 	RangePanic     bool // allow panics (recovered or not) while a for-range loop is active
 	AssertMsgDT    bool // allow failed type assertions that involve a defined type (message is printed)
 	DeferBuiltinDT bool // allow deferred print/println calls with arguments of defined types
+	PanicDefType   bool // allow panic values of program-defined types (the message is printed if not recovered)
 }
 
 // DefaultConfig is a medium-size configuration.
 func DefaultConfig() Config {
-	return Config{Stmts: 14, Funcs: 5, Faults: true, Complex: true, LabelledCtl: true, NegShift: true, DeferNative: true, RangePanic: true, AssertMsgDT: true, DeferBuiltinDT: true}
+	return Config{Stmts: 14, Funcs: 5, Faults: true, Complex: true, LabelledCtl: true, NegShift: true, DeferNative: true, RangePanic: true, AssertMsgDT: true, DeferBuiltinDT: true, PanicDefType: true}
 }
 
 // Program is a generated program.
